@@ -1610,6 +1610,8 @@ class Exec:
                     continue
                 outs.extend(self.set_attr(base, tgt.attr, v, s, lineno))
             return outs
+        if isinstance(tgt, ast.Subscript) and isinstance(tgt.slice, ast.Slice):
+            return self.set_slice(tgt, v, st, lineno)
         if isinstance(tgt, ast.Subscript):
             outs = []
             for vals, s in self.eval_seq([tgt.value, tgt.slice], st):
@@ -1652,6 +1654,50 @@ class Exec:
         if r is not None:
             return r
         raise Unsupported("attribute assignment on %r (line %d)" % (base, lineno))
+
+    def set_slice(self, tgt, v, st, lineno):
+        """L[a:b] = R on a modelled list (no step): L becomes L[:a'] + R + L[max(a', b'):] with Python's clamping of the
+        bounds (negative bounds count from the end, everything is clamped to 0..len)"""
+        sl = tgt.slice
+        if sl.step is not None:
+            raise Unsupported("slice assignment with a step (line %d)" % lineno)
+        v = self.deref(v, st)
+        if not isinstance(v, SList):
+            raise Unsupported("slice assignment of %r (line %d)" % (v, lineno))
+        parts = [tgt.value] + [b for b in (sl.lower, sl.upper) if b is not None]
+        outs = []
+        for vals, s in self.eval_seq(parts, st):
+            if isinstance(vals, Exc):
+                outs.append(Outcome("raise", s, vals))
+                continue
+            base = vals[0]
+            lst = self.deref(base, s)
+            if not isinstance(lst, SList):
+                raise Unsupported("slice assignment on %r (line %d)" % (lst, lineno))
+            rest = list(vals[1:])
+            n = lst.len
+
+            def clamp(x):
+                x = V.as_num(self.deref(x, s)).t
+                x = z3.If(x < 0, x + n, x)
+                return z3.If(x < 0, 0, z3.If(x > n, n, x))
+            a = clamp(rest.pop(0)) if sl.lower is not None else z3.IntVal(0)
+            b = clamp(rest.pop(0)) if sl.upper is not None else n
+            b = z3.If(b < a, a, b)
+            rhs = v
+            if rhs.ekind == ("any",) or rhs.ekind != lst.ekind:
+                at_r = rhs.at
+                rhs = SList(rhs.len, at_r, lst.ekind)
+            new = V.list_concat(V.list_concat(V.list_slice_to(lst, a), rhs), V.list_slice_from(lst, b))
+            s2 = s.fork()
+            if isinstance(base, FieldRef):
+                s2.f[base.name] = new
+            elif isinstance(tgt.value, ast.Name):
+                s2.loc[tgt.value.id] = new
+            else:
+                raise Unsupported("slice assignment on temporary list")
+            outs.append(Outcome("next", s2))
+        return outs
 
     def set_item(self, base, idx, v, st, tgt, lineno):
         if isinstance(base, RecRef) and isinstance(idx, VStr) and not z3.is_int_value(z3.simplify(idx.t)):
